@@ -56,7 +56,10 @@ pub fn replay_case(prop: &str, case: &Value) -> Option<Vec<(usize, String, Strin
     match kind {
         "history" => {
             let h = history_from_value(case)?;
-            let res = run_history_for(&h, prop);
+            let res = match case.get("giant_limit").and_then(|g| g.as_u64()) {
+                Some(limit) => crate::history::run_history_with(&h, limit as usize, Some(prop)),
+                None => run_history_for(&h, prop),
+            };
             Some(res.failures.iter().map(|(s, f)| (*s, f.clause.clone(), f.detail.clone())).collect())
         }
         _ => super::replay_other(prop, kind, case),
